@@ -286,6 +286,8 @@ func checkC13(c *Ctx) {
 	c.rule("C13.R7", "ordinal/plural category guards select CLDR's English categories on 0…999 (constant evaluation of the extracted guard expressions)", 1)
 	c.rule("C13.R9", "TextForAttribute answers with its constant (empty) result for no attribute whose range lies inside the text: the guard's conditions, evaluated on every position/length/text length up to 3, never hold for a valid range", 1)
 	c.rule("C13.R10", "select, plural and ordinal answer with the chosen replacement's text in which the placeholders were replaced by the value's text: every successful return is replacePlaceholders(<property chosen>.toString(), <property \"value\">.toString())", 3)
+	c.rule("C13.R11", "no failure is reported on behalf of a call that succeeded: every error variable handed to fmt.Errorf in package markup is entailed non-nil there", 5)
+	c.rule("C13.R12", "what a lookup hands back is used only where it is known to have been found: every use of v after `v, ok := f(…)` on a (T, bool) function of package markup is entailed by ok", 1)
 	c.rule("C13.R8", "a decimal property value is a function of the fraction's digits as written: the float stored for a decimal literal depends on a string read from the line (not only on integers parsed from it, which cannot tell 05 from 5)", 1)
 	mp := w.Pkg("markup")
 	if mp == nil {
@@ -302,6 +304,8 @@ func checkC13(c *Ctx) {
 	c13Cardinal(c)
 	c13TextExact(c)
 	c13Placeholders(c)
+	checkWrapNonNil(c, "C13.R11", "markup")
+	checkFoundFlag(c, "C13.R12", "markup")
 	c13Decimal(c)
 }
 
